@@ -172,6 +172,13 @@ def vIsComponent (v : Node) : Bool := v.atoms.head? == some "component"
 
 def countVnodes (n : Node) : Nat := (collect (fun x => x.kind == .other "vnode") n).length
 
+/-- the vnodes reached without passing through the PROPS of another vnode (top level, children, slots): a vnode inside
+    a prop value can legitimately vanish from one normal form (a later entry with the same key overwrites it) -/
+partial def structuralVnodes (n : Node) : List Node :=
+  match n with
+  | .mk (.other "vnode") _ ks => n :: ((ks.drop 2).take 1).flatMap structuralVnodes
+  | .mk _ _ ks => ks.flatMap structuralVnodes
+
 def hasOod (n : Node) : Bool := !(collect (fun x => x.kind == .other "ood") n).isEmpty
 
 /-- does the input contain an element/fragment directly as an attribute value (`a=<b/>`)?  (C07's territory) -/
@@ -186,6 +193,8 @@ structure SemView where
   pairs : List VPair
   shapeOk : Bool
   dCount : Nat
+  /-- structural vnodes of the denotation that were paired with nothing -/
+  unpaired : Nat
   /-- some denoted element drops a repeated attribute (whose value, possibly JSX, is then never lowered) -/
   anyDropped : Bool
   deriving Inhabited
@@ -195,6 +204,7 @@ def semView (o : Opts) (env : Env) (pragma : Option String) (inN outN : Node) : 
   let e := evalOut pragma outN
   let (ps, ok) := pairVnodes d e
   { pairs := ps, shapeOk := ok, dCount := countVnodes d,
+    unpaired := ((structuralVnodes d).filter fun v => !ps.any (fun p => p.d == v)).length,
     anyDropped := (collect (fun x => x.kind == .other "vnode" && x.atoms.contains "dropped-duplicate") d).length != 0 }
 
 def showN (n : Node) : String :=
@@ -206,8 +216,8 @@ def judge (sv : SemView) (sel : Node → Node) (filter : VPair → Bool) (classi
   match (sv.pairs.filter filter).find? (fun p => !(shallow (sel p.d) == shallow (sel p.e))) with
   | some p => .fail (classify p) s!"denoted {showN (shallow (sel p.d))} evaluated {showN (shallow (sel p.e))}"
   | none =>
-    if sv.pairs.length != sv.dCount && !sv.anyDropped then
-      .fail "unpaired-vnode" s!"{sv.dCount - sv.pairs.length} of {sv.dCount} JSX elements have no vnode at their position"
+    if sv.unpaired != 0 && !sv.anyDropped then
+      .fail "unpaired-vnode" s!"{sv.unpaired} of {sv.dCount} JSX elements have no vnode at their position"
     else .ok
 
 end VueJsx
@@ -575,7 +585,7 @@ def c20Call (o : Opts) (vueBinds : List String) (decl : Option String) (ci co : 
   | _ => some ("options-changed", s!"the options argument is not an object literal: {showN co}")
 
 /-- module items of the output without the statements the transform inserted -/
-def stripInserted (out : Node) : Node := post (stripRule (rolesOfModule out)) out
+def stripInserted (out : Node) : Node := stripAll (rolesOfModule out) out
 
 def oracleC20 (o : Opts) (inN outN : Node) : Verdict :=
   let pairs := pairCalls inN (stripInserted outN) none
@@ -876,7 +886,7 @@ def oracleC11 (o : Opts) (env : Env) (inN outN : Node) : Verdict :=
       match ps.find? (fun p => !(shallow (vDirs p.d) == shallow (vDirs p.e))) with
       | some p => .fail "directive-expressions" s!"expected {showN (vDirs p.d)} got {showN (vDirs p.e)}"
       | none =>
-        if sv.pairs.length != sv.dCount && !sv.anyDropped then .fail "unpaired-vnode" "a JSX element has no vnode at its position" else .ok
+        if sv.unpaired != 0 && !sv.anyDropped then .fail "unpaired-vnode" "a JSX element has no vnode at its position" else .ok
 
 /-! ### C10: a JSX statement's lowering does not depend on unrelated code around it -/
 
@@ -884,6 +894,33 @@ def moduleItems (m : Node) : List Node :=
   match m with
   | .mk .module _ (.mk .list _ items :: _) => items
   | _ => []
+
+/-- binding classes of the generated identifiers of a tree, by first occurrence -/
+def genBindsOf (n : Node) : List String :=
+  (collect (fun z => match z with | .mk .ident (_ :: bnd :: _) _ => bnd.startsWith "g" || bnd.startsWith "G" | _ => false) n).foldl
+    (fun acc z => match z with | .mk .ident (_ :: bnd :: _) _ => if acc.contains bnd then acc else acc ++ [bnd] | _ => acc) []
+
+def declaresBind (bnd : String) (s : Node) : Bool :=
+  !(collect (fun z => match z with
+    | .mk .declarator _ (.mk .ident (_ :: b :: _) _ :: _) => b == bnd
+    | .mk .importSpec _ (.mk .ident (_ :: b :: _) _ :: _) => b == bnd
+    | .mk .fnDecl _ (.mk .ident (_ :: b :: _) _ :: _) => b == bnd
+    | _ => false) s).isEmpty
+
+/-- where a generated identifier used by statement `idx` of the module is declared:
+    at module level, inside the statement itself, inside some other statement, or nowhere -/
+def declPlace (m : Node) (idx : Nat) (bnd : String) : String :=
+  let items := moduleItems m
+  let direct (s : Node) : Bool :=
+    match s with
+    | .mk .varDecl _ [.mk .list _ decls] => decls.any fun d => match d with | .mk .declarator _ (.mk .ident (_ :: b :: _) _ :: _) => b == bnd | _ => false
+    | .mk .importDecl _ (.mk .list _ specs :: _) => specs.any fun sp => match sp with | .mk .importSpec _ (.mk .ident (_ :: b :: _) _ :: _) => b == bnd | _ => false
+    | .mk .fnDecl _ (.mk .ident (_ :: b :: _) _ :: _) => b == bnd
+    | _ => false
+  if items.any direct then "module-level"
+  else if (match items[idx]? with | some s => declaresBind bnd s | none => false) then "inside-the-statement"
+  else if items.any (declaresBind bnd) then "inside-another-statement"
+  else "nowhere"
 
 /-- `mode` = "c10:<i>:<j>": item i of output A (the statement alone) must equal item j of output B (with code around it),
     after stripping inserted statements and renaming generated identifiers by first occurrence within the statement -/
@@ -899,7 +936,13 @@ def oracleC10 (mode : String) (a b : Node) : Verdict :=
         | .mk .ident (_ :: bnd :: r) ks => if bnd.startsWith "G" then .mk .ident ("_" :: bnd :: r) ks else z
         | z => z) n
       match firstDiff (anon (canon x)) (anon (canon y)) [] with
-      | none => .ok
+      | none =>
+        -- the declarations the lowering needs (temporaries, helpers, imports) sit in the same place in both modules
+        let idxOf (m : Node) (stmt : Node) : Nat := ((moduleItems m).findIdx? (fun s => canon (stripAll (rolesOfModule m) s) == canon stmt)).getD 0
+        let pa := (genBindsOf x).map (declPlace a (idxOf a x))
+        let pb := (genBindsOf y).map (declPlace b (idxOf b y))
+        if pa == pb then .ok
+        else .fail "declaration-placement-depends-on-context" s!"generated identifiers of the statement are declared {pa} alone but {pb} in context"
       | some (path, p, q) =>
         let caps := (capturedRoles b).map (·.1)
         let cap := !(collect (fun n => match n with | .mk .ident (_ :: bnd :: _) _ => caps.contains bnd | _ => false) y).isEmpty
